@@ -1,6 +1,6 @@
 """C18: Deref / DerefMut target the single field itself."""
 import json
-import fam2, elayer as E, blayer as B
+import fam2, elayer as E, blayer as B, glayer
 from common import Expander
 
 LEVEL = "proof"
@@ -44,13 +44,15 @@ def run(ctx):
     ex = Expander()
     n = arity(ctx, ex)
     ex.close()
+    g = glayer.run_g(ctx, {"misc": ["build_deref_for_struct"]})
     ctx.assumptions += [
+        "layer G (Verus): build_deref_for_struct copied from /repo: Err <==> fields.len() != 1, and its unreachable!()/fields[0] sites are panic-free given kind in {Deref, DerefMut}",
         "Kani 0.68 / CBMC 6.11, proof_for_contract: pointer identity ptr::eq(deref(x), &x.field), write through deref_mut read back from the field; `Target == field type` is a trait-level type identity (SameTy) discharged by rustc's trait solver",
         "rejection of 0- and 2..4-field structs: executed through the real expander (bounded, exhaustive over the stated arities)",
         "heap-backed unsized-capable field types (Box<[u8]>, String) are not in the Kani family (allocator cost); pointer identity does not depend on the field type (the body is `&self.field`)",
     ]
     cov = dict(st)
-    cov.update({"obligations": st["kani_harnesses"], "discharged": st["kani_verified"],
+    cov.update({"obligations": st["kani_harnesses"] + g["obligations"], "discharged": st["kani_verified"] + g["discharged"], "g_units": g["units"],
                 "checker_cmd": "cargo kani -Z function-contracts -j 16 --output-format terse (crate build/e/C18/c00)",
                 "trusted_base": ["Kani 0.68.0 / CBMC 6.11", "rustc trait solver for Target type identity"],
                 "functions_under_contract": ["w_deref, w_deref_mut wrappers of the generated Deref::deref / DerefMut::deref_mut"],
